@@ -385,6 +385,9 @@ from extract_crash import crash_facts; EXTRA_SECTIONS.append(crash_facts)  # C05
 import extract_clean; EXTRA_SECTIONS.append(extract_clean.section)  # noqa: E402,E702  (M8, C11)
 from extract_capture import capture_section  # noqa: E402
 EXTRA_SECTIONS.append(capture_section)
+from extract_capgen import capgen_section  # noqa: E402  (M10 tie: CaptureGen.lean / Properties/CaptureTie.lean)
+EXTRA_SECTIONS.append(capgen_section)
+SECTION_PROPS["extract_capgen"] = ["C14", "C15"]
 from extract_engine import engine_section  # noqa: E402  (M6 tie: EngineGen.lean / Properties/EngineTie.lean)
 EXTRA_SECTIONS.append(engine_section)
 SECTION_PROPS["extract_engine"] = ["C01", "C02", "C03", "C04", "C05", "C06", "C08", "C09", "C10", "C17"]
